@@ -810,10 +810,45 @@ func TestC14Backend(t *testing.T) {
 				px.Set(cache.CAS, d.Hash, fproxy.Obj{Stored: data, Logical: 30})
 			}
 		}
-		surface := rapid.SampledFrom([]string{"findmissing-abort", "depcheck", "depcheck-http"}).Draw(t, "surface")
+		surface := rapid.SampledFrom([]string{"findmissing-abort", "depcheck", "depcheck-http", "fetch-breaks", "fetch-breaks"}).Draw(t, "surface")
 		what := note("%s with %d digests (backend holds: %s, backend delay <= %dus)", surface, n, inBackend, maxDelay)
 		statusCls := "-"
 		switch surface {
+		case "fetch-breaks":
+			// a read that has to fetch from the backend, whose stream then breaks
+			// (error or early end at byte k, nil reader, error before the answer);
+			// with and without a size in the request
+			size := rapid.SampledFrom([]int{1, 5000, 70000, 1100000}).Draw(t, "blobSize")
+			data := gen.Expand(4242, size, "rand")
+			h := gen.SHA(data)
+			storedForm := casfmt.Encode(data, gen.Chunk, func(b []byte) []byte { return gen.ZstdGo(b, 1, false) })
+			px.Set(cache.CAS, h, fproxy.Obj{Stored: storedForm, Logical: int64(size)})
+			f := fproxy.Fault{Kind: rapid.SampledFrom([]string{"stream-err", "stream-err", "clean-eof", "clean-eof", "err-before", "nil-reader-no-err", "bad-header"}).Draw(t, "fetchFault")}
+			if f.Kind == "stream-err" || f.Kind == "clean-eof" {
+				f.At = rapid.IntRange(0, len(storedForm)-1).Draw(t, "faultAt")
+			}
+			px.SetFault(cache.CAS, h, f)
+			via := rapid.SampledFrom([]string{"http-get", "http-get", "bs-read", "disk-unknown"}).Draw(t, "via")
+			what = note("fetch-breaks via %s: %d-byte blob held by the backend only, fault %s at %d", via, size, f.Kind, f.At)
+			switch via {
+			case "http-get":
+				r := cl.HTTPGet(s, "/cas/"+h, nil)
+				statusCls = fmt.Sprint(r.Code)
+				if r.Code == 200 && r.Err == nil && !bytes.Equal(r.Body, data) {
+					t.Fatalf("complete 200 response with other bytes: %s", what)
+				}
+			case "bs-read":
+				_, code, _ := cl.BSRead(s, cl.ReadName("", h, int64(size), false), 0, 0)
+				statusCls = code.String()
+			default:
+				rc, _, err := s.Cache.Get(context.Background(), cache.CAS, h, -1, 0)
+				if rc != nil {
+					io.Copy(io.Discard, rc)
+					rc.Close()
+				}
+				statusCls = fmt.Sprint(err != nil)
+			}
+			px.ClearFaults()
 		case "findmissing-abort":
 			to := time.Duration(rapid.SampledFrom([]int{0, 1, 5, 50, 20000}).Draw(t, "timeoutMillis")) * time.Millisecond
 			ctx, cancel := context.WithTimeout(context.Background(), to)
